@@ -178,6 +178,21 @@ func genC09(tier, out string, sum *Summary) {
 			check(e, docs[0])
 		}
 	}
+	// a binding is evaluated once however often its variable is used: chains in which every level uses the
+	// previous variable twice (null, false-like and ordinary values alike)
+	for _, seed := range []string{"missing", "a", "e", "z", "`null`", "`false`", "s"} {
+		for _, use := range []string{"$P || $P", "$P && $P", "[$P, $P][0]", "not_null($P, $P)", "[$P, $P] | [0]", "{p: $P, q: $P}.p", "$P == $P && $P", "not_null($P) || $P"} {
+			for _, d := range []int{8, 48} {
+				var b strings.Builder
+				b.WriteString("let $v0 = " + seed + " in ")
+				for i := 1; i <= d; i++ {
+					b.WriteString("let $v" + strconv.Itoa(i) + " = " + strings.ReplaceAll(use, "$P", "$v"+strconv.Itoa(i-1)) + " in ")
+				}
+				b.WriteString("$v" + strconv.Itoa(d))
+				check(b.String(), docs[0])
+			}
+		}
+	}
 	// nesting depth up to the expression length
 	depths := []int{10, 100, 1000, 10000}
 	if tier == "thorough" {
